@@ -6,9 +6,9 @@ TS = [1, 3, 1000, 2500000, 1000000000]
 
 
 def split(script):
-    hdr, ops, i = script[:2], [], 2
+    hdr, ops, i = script[:3], [], 3
     while i < len(script):
-        k = {1: 3, 2: 2, 3: 1, 4: 1, 5: 1}.get(script[i])
+        k = {1: 3, 2: 2, 3: 1, 4: 1, 5: 1, 6: 1}.get(script[i])
         if k is None or i + k > len(script):
             break
         ops.append(script[i:i + k]); i += k
@@ -24,8 +24,8 @@ def join(hdr, ops):
 
 def pretty(script):
     hdr, ops = split(script)
-    names = {1: "add", 2: "cancel", 3: "fetch", 4: "len", 5: "time"}
-    s = "n=%d t=%dns: " % tuple(hdr)
+    names = {1: "add", 2: "cancel", 3: "fetch", 4: "len", 5: "time", 6: "peek"}
+    s = "n=%d t=%dns start=%dns: " % tuple(hdr)
     parts = []
     for o in ops:
         if o[0] == 1:
@@ -39,8 +39,8 @@ def pretty(script):
 
 class Ref:
     """Two-list reference (the Coq Spec, in Python) used by generators and monitors."""
-    def __init__(self):
-        self.tcur = 0; self.zero = []; self.rest = []; self.next = 0; self.handles = []
+    def __init__(self, ts=0):
+        self.tcur = ts; self.zero = []; self.rest = []; self.next = 0; self.handles = []
 
     def add(self, t, p):
         if t < self.tcur:
@@ -76,7 +76,11 @@ def gen_script(rng, maxlen=60, tie_heavy=False):
     n = rng.choice(NS); t = rng.choice(TS)
     if rng.random() < 0.15:
         n = rng.randint(1, 40); t = rng.randint(1, 50)
-    ref = Ref()
+    ts = 0
+    if rng.random() < 0.25:
+        ts = rng.choice([1, t - 1 if t > 1 else 1, t, t + 1, n * t, n * t + 1, 3 * n * t - 1, rng.randint(1, 5 * n * t)])
+        ts = max(1, ts)
+    ref = Ref(ts)
     ops = []
     L = rng.randint(1, maxlen)
     pay = 100
@@ -125,15 +129,17 @@ def gen_script(rng, maxlen=60, tie_heavy=False):
         elif r < 0.90:
             k = rng.randint(0, max(0, len(ref.handles) + 1))
             ops.append([2, k]); ref.cancel(k)
-        elif r < 0.96:
+        elif r < 0.93:
             ops.append([4])
+        elif r < 0.97:
+            ops.append([6])
         else:
             ops.append([5])
     if rng.random() < 0.6:  # drain
         for _ in range(len(ref.pending()) + 1):
             ops.append([3]); ref.fetch()
         ops.append([4])
-    return join([n, t], ops)
+    return join([n, t, ts], ops)
 
 
 def walk(script, out):
@@ -146,6 +152,8 @@ def walk(script, out):
             raise ValueError("output too short")
         tag = out[i]
         ln = {1: 1, 2: 3, 3: 2, 4: 2, 5: 1, 9: 2, 8: 1}.get(tag)
+        if tag == 6:
+            ln = 3 if (i + 1 < len(out) and out[i + 1] == 1) else 2
         if ln is None:
             raise ValueError("bad record tag %d" % tag)
         recs.append((o, out[i:i + ln])); i += ln
@@ -156,9 +164,10 @@ def walk(script, out):
 
 def mechanisms(script, out):
     hdr, ops = split(script)
-    n, t = hdr
+    n, t, ts = hdr
     m = set()
-    ref = Ref()
+    if ts: m.add("nonzero_start")
+    ref = Ref(ts)
     for o in ops:
         if o[0] == 1:
             if o[1] == ref.tcur: m.add("add_at_current_time")
@@ -180,4 +189,6 @@ def mechanisms(script, out):
         elif o[0] == 3:
             if not ref.pending(): m.add("fetch_empty")
             ref.fetch()
+        elif o[0] == 6:
+            m.add("peek")
     return m
